@@ -139,6 +139,8 @@ class C06(Mon):
                            all(getattr(b, "closed_by_plan", False) for b in flyers), dict(info, call=name))
                 mons = [b for b in self.eng.bundlers if getattr(b, "monitoring", False)]
                 w.check(f"{REQ}._run#ensures[at idle every monitor subscription installed by a run has been removed]", not mons, dict(info, call=name))
+                # the per-call subscriptions handed out during this call (they may live until the next call starts)
+                self.subs = tuple(I.getattr(sc.re, "_temp_callback_ids"))
         elif kind == "plan-start" and getattr(a[0], "name", "") == "plan2":
             # the next call has started: the per-call subscriptions of the previous call are gone from the dispatcher
             tm = I.getattr(I.getattr(sc.re, "dispatcher"), "_token_mapping")
@@ -146,8 +148,6 @@ class C06(Mon):
             w.check(f"{REQ}._clear_call_cache#ensures[per-call subscriptions are removed from the dispatcher before the next call starts]", not left,
                     dict(info, left=len(left)))
             self.subs = ()
-        elif kind == "subscribed":
-            self.subs += (a[0],)
 
 
 KF_C06 = "C06-flyer-of-plan-closed-run-never-collected"
